@@ -3,7 +3,9 @@ import itertools
 
 import numpy as np
 
-from gambit.metric import jaccarddist
+from gambit.kmers import KmerSpec
+from gambit.metric import jaccarddist, jaccarddist_array
+from gambit.sigs import SignatureArray
 from .. import core
 from ..enc import f32_fields, ranks
 
@@ -15,7 +17,7 @@ def triple_record(av, bv, cv, x, dts):
     ra, rb, rc, rax, rbx = ranks(av, bv, cv, sorted(av + [x]), sorted(bv + [x]))
     z = f32_fields(0.0)
     r = dict(a=ra, b=rb, c=rc, ax=rax, bx=rbx, dts=list(dts), ok=False, err='',
-             d={n: z for n in ('ab', 'ba', 'ac', 'ca', 'bc', 'cb', 'wab', 'wba', 'aug')})
+             d={n: z for n in ('ab', 'ba', 'ac', 'ca', 'bc', 'cb', 'wab', 'wba', 'aug', 'pab', 'pac')})
     try:
         A = np.array(av, dtype=dts[0]); B = np.array(bv, dtype=dts[1]); C = np.array(cv, dtype=dts[2])
         Aw = A.astype(WIDER[dts[0]]); Bw = B.astype(WIDER[dts[1]])
@@ -26,6 +28,15 @@ def triple_record(av, bv, cv, x, dts):
         d['bc'] = f32_fields(jaccarddist(B, C)); d['cb'] = f32_fields(jaccarddist(C, B))
         d['wab'] = f32_fields(jaccarddist(Aw, B)); d['wba'] = f32_fields(jaccarddist(Bw, Aw))
         d['aug'] = f32_fields(jaccarddist(AX, BX))
+        # the same two distances through the one-against-many path, references stored concatenated in THEIR integer type
+        if np.dtype(dts[1]).itemsize == np.dtype(dts[2]).itemsize:
+            refs = SignatureArray([B.view(f'u{B.dtype.itemsize}'), C.view(f'u{C.dtype.itemsize}')], KmerSpec(16, 'ATG'), dtype=np.dtype(f'u{B.dtype.itemsize}'))
+            from gambit._cython.threads import omp_set_num_threads
+            omp_set_num_threads(1)
+            row = jaccarddist_array(A, refs)
+            d['pab'] = f32_fields(row[0]); d['pac'] = f32_fields(row[1])
+        else:
+            d['pab'] = d['ab']; d['pac'] = d['ac']
         r['ok'] = True
     except Exception as e:
         r['err'] = type(e).__name__
@@ -61,13 +72,22 @@ class AllTriples(Fam):
         U = 4 if ctx.tier == 'quick' else 5
         ndt = 3 if ctx.tier == 'quick' else 6
         self.rule = (f'every ordered triple of subsets of a {U}-element universe x {ndt} dtype assignments (universe placed at '
-                     f'the top of the narrowest range); six distances, two widened-dtype variants and the augmented pair per record')
+                     f'the top of the narrowest range, plus a wider-typed first set holding values congruent mod 2^16 / 2^32 to the others); six distances, two widened-dtype variants, the one-against-many path and the augmented pair per record')
         subsets = [[i for i in range(U) if (m >> i) & 1] for m in range(1 << U)]
         for dts in DT3[:ndt]:
             top = min(int(np.iinfo(np.dtype(d)).max) for d in dts)
             vals = [top - U + i for i in range(U)]        # leaves `top` free as the absent k-mer x
             for sa, sb, sc in itertools.product(subsets, repeat=3):
                 yield dict(a=[vals[i] for i in sa], b=[vals[i] for i in sb], c=[vals[i] for i in sc], x=top, dts=dts)
+        # a query in a wider type than the references, holding values congruent (mod 2^width) to reference values
+        for dts, mod in ((('u4', 'u2', 'u2'), 1 << 16), (('u8', 'u4', 'i4'), 1 << 32)):
+            small = [0, 5, 9]
+            wide = small + [mod + v for v in small]
+            subs_w = [[wide[i] for i in range(6) if (m >> i) & 1] for m in range(64)]
+            subs_s = [[small[i] for i in range(3) if (m >> i) & 1] for m in range(8)]
+            for av in subs_w:
+                for bv, cv in itertools.product(subs_s, repeat=2):
+                    yield dict(a=av, b=bv, c=cv, x=3, dts=dts)
 
 
 class RandomTriples(Fam):
